@@ -28,10 +28,10 @@ def sh(cmd, cwd):
 
 
 def imp():
-    # round 1 deliveries: <Cxx>-out/{1,2,3} -> n1..n3; round 2: <Cxx>-out2 -> n4..n6; round 3: <Cxx>-out3 -> n7..n9
+    # deliveries: round 1 /tmp/neutral/<Cxx>-out -> n1..n3; round 2 -out2 -> n4..n6; round 3 -out3 -> n7..n9;
+    # round 4 /tmp/neutral4/<Cxx>-out -> n10..n12
     for prop in ALL:
-        for sub, off in (("out", 0), ("out2", 3), ("out3", 6)):
-            base = f"/tmp/neutral/{prop}-{sub}"
+        for base, off in ((f"/tmp/neutral/{prop}-out", 0), (f"/tmp/neutral/{prop}-out2", 3), (f"/tmp/neutral/{prop}-out3", 6), (f"/tmp/neutral4/{prop}-out", 9)):
             if not os.path.isdir(base):
                 continue
             for n in sorted(os.listdir(base)):
